@@ -39,7 +39,7 @@ COUNT_PLAN = {
     "AMBIG": (["<start>", "<A>"], ["<A>"], 5, 11),
     "LEFTREC": (["<start>", "<E>"], ["<T>", "<E>"], 6, 14),
 }
-FIXED = ["NULLABLE", "AMBIG", "LEFTREC", "RIGHTREC", "MULTICHAR", "XMLISH", "CSVISH", "NUM", "ASSGN2", "TWOSTART", "LENGTHS"]
+FIXED = ["NULLABLE", "AMBIG", "LEFTREC", "RIGHTREC", "MULTICHAR", "XMLISH", "CSVISH", "NUM", "ASSGN2", "TWOSTART", "LENGTHS", "SHAREDALT", "PAIRS"]
 TIERS = {
     "quick": dict(L=8, fixed_seeds=5, count_trees=18, count_nums=[0, 1, 2, 3, 4], count_seeds=1, cap=15, task_timeout=400, values=VALUES[::2]),
     "thorough": dict(L=10, fixed_seeds=16, count_trees=120, count_nums=[0, 1, 2, 3, 4, 5, 6], count_seeds=2, cap=45, task_timeout=1500, values=VALUES),
